@@ -179,6 +179,8 @@ struct Setup {
     src: SrcKind,
     items: Vec<MTriple>,
     ops: Vec<(OpKind, u64, u8)>,
+    /// adapters applied on the quad side, after `to_quads()` (quad consumers only)
+    qops: Vec<(OpKind, u64, u8)>,
     consumer: Consumer,
     /// pre-existing content of the target of insert_all / remove_all
     pre: Vec<MTriple>,
@@ -312,6 +314,7 @@ impl sophia_api::source::Source for BatchSource {
 // driving a chain with a consumer
 
 struct Drive<'a> {
+    qops: &'a [Op],
     consumer: Consumer,
     sink: SinkFault,
     pre: &'a [MTriple],
@@ -545,10 +548,33 @@ where
                 self.out.res = stream_res(ser.serialize_triples(ts).map(|_| ())).1;
                 self.finish_writer(&w);
             }
+            Consumer::QuadsTry | Consumer::QuadsCollect | Consumer::SerNq => {
+                let qops = self.qops;
+                with_qchain(ts.to_quads(), qops, self);
+            }
+            Consumer::IterCollect | Consumer::IterStep => {
+                panic!("ORACLE: iterator consumers are driven through with_chain_iter")
+            }
+        }
+    }
+}
+
+impl<E> VisitQ<E> for Drive<'_>
+where
+    E: std::error::Error + Send + Sync + 'static,
+{
+    type Out = ();
+
+    fn visit_q<T: QuadSource<Error = E>>(mut self, mut qs: T) {
+        let fail_at = match self.sink {
+            SinkFault::Closure(j) => Some(j),
+            _ => None,
+        };
+        match self.consumer {
             Consumer::QuadsTry => {
                 let mut n = 0usize;
                 let out = &mut *self.out;
-                let r = ts.to_quads().try_for_each_quad(|q| -> Result<(), SimFault> {
+                let r = qs.try_for_each_quad(|q| -> Result<(), SimFault> {
                     let (m, g) = quad_from(q);
                     if g.is_some() {
                         panic!("ORACLE: to_quads() produced a named graph");
@@ -565,19 +591,15 @@ where
                 self.out.res = stream_res(r).1;
             }
             Consumer::QuadsCollect => {
-                let (d, res) =
-                    stream_res(ts.to_quads().collect_quads::<Vec<Spog<SimpleTerm<'static>>>>());
+                let (d, res) = stream_res(qs.collect_quads::<Vec<Spog<SimpleTerm<'static>>>>());
                 self.out.res = res;
                 self.out.state = d.map(|d| d.iter().map(|q| mt(&q.0)).collect());
             }
-            Consumer::SerNq => {
+            _ => {
                 let w = SimWriter::new(self.wplan());
                 let mut ser = sophia_turtle::serializer::nq::NqSerializer::new(w.handle());
-                self.out.res = stream_res(ser.serialize_quads(ts.to_quads()).map(|_| ())).1;
+                self.out.res = stream_res(ser.serialize_quads(qs).map(|_| ())).1;
                 self.finish_writer(&w);
-            }
-            Consumer::IterCollect | Consumer::IterStep => {
-                panic!("ORACLE: iterator consumers are driven through with_chain_iter")
             }
         }
     }
@@ -775,9 +797,20 @@ fn execute(setup: &Setup, sf: SrcFault, kf: SinkFault) -> Outcome {
         early_false: false,
         sim_events: 0,
     };
+    let qops: Vec<Op> = setup
+        .qops
+        .iter()
+        .map(|(kind, mask, k)| Op {
+            kind: *kind,
+            mask: *mask,
+            k: *k,
+            calls: Rc::new(Cell::new(0)),
+        })
+        .collect();
     let pulls = Rc::new(Cell::new(0usize));
     {
         let drive = Drive {
+            qops: &qops,
             consumer: setup.consumer,
             sink: kf,
             pre: &setup.pre,
@@ -865,7 +898,7 @@ fn execute(setup: &Setup, sf: SrcFault, kf: SinkFault) -> Outcome {
         }
     }
     out.pulls = pulls.get();
-    out.calls = ops.iter().map(|o| o.calls.get()).collect();
+    out.calls = ops.iter().chain(qops.iter()).map(|o| o.calls.get()).collect();
     out
 }
 
@@ -876,6 +909,7 @@ fn ops_of(setup: &Setup) -> Vec<Op> {
     setup
         .ops
         .iter()
+        .chain(setup.qops.iter())
         .map(|(kind, mask, k)| Op {
             kind: *kind,
             mask: *mask,
@@ -1466,8 +1500,20 @@ fn run_c15(ctx: &mut Ctx) -> Verdict {
             None => ops.push((OpKind::Map, !0, 1)),
         }
     }
+    let qops: Vec<(OpKind, u64, u8)> = if matches!(consumer, Consumer::QuadsTry | Consumer::QuadsCollect | Consumer::SerNq) {
+        (0..ctx.tape.below(3))
+            .map(|_| {
+                let kind = [OpKind::Filter, OpKind::Map, OpKind::FilterMap][ctx.tape.below(3)];
+                let mask = !ctx.tape.draw(256) & !(ctx.tape.draw(256) & ctx.tape.draw(256));
+                (kind, mask, 4 + ctx.tape.below(4) as u8)
+            })
+            .collect()
+    } else {
+        vec![]
+    };
     let ops_model = ops
         .iter()
+        .chain(qops.iter())
         .map(|(kind, mask, k)| Op {
             kind: *kind,
             mask: *mask,
@@ -1505,11 +1551,17 @@ fn run_c15(ctx: &mut Ctx) -> Verdict {
         src,
         items,
         ops,
+        qops,
         consumer,
         pre,
         noise,
     };
-    let chain_code: String = setup.ops.iter().map(|o| o.0.code() as char).collect();
+    let mut chain_code: String = setup.ops.iter().map(|o| o.0.code() as char).collect();
+    if !setup.qops.is_empty() {
+        chain_code.push('|');
+        chain_code.extend(setup.qops.iter().map(|o| o.0.code() as char));
+        ctx.probe("quad_side_adapters");
+    }
     ctx.sig(&format!("{:?}/{chain_code}/{:?}", setup.src, setup.consumer));
     ctx.sig_u(n as u64);
     ctx.ops += 1;
@@ -1547,7 +1599,8 @@ fn run_c15(ctx: &mut Ctx) -> Verdict {
             src: setup.src,
             items: setup.items.clone(),
             ops: setup.ops.clone(),
-            consumer: Consumer::TryForEach,
+            qops: setup.qops.clone(),
+            consumer: if setup.qops.is_empty() { Consumer::TryForEach } else { Consumer::QuadsTry },
             pre: vec![],
             noise: Noise::perfect(),
         };
